@@ -551,7 +551,16 @@ func main() {
 		if need, ok := j["need"].([]any); ok && jobExh {
 			for _, n := range need {
 				if jc[n.(string)] == 0 {
-					vacuity = append(vacuity, fmt.Sprintf("scenario %v: counter %q stayed 0 (the state of interest was never reached)", j["scenario"], n))
+					lbl := ""
+					if pm, ok := j["params"].(map[string]any); ok {
+						if l, ok := pm["label"].(string); ok {
+							lbl = " [" + l + "]"
+						} else if c, ok := pm["cfg"]; ok {
+							b, _ := json.Marshal(c)
+							lbl = " " + string(b)
+						}
+					}
+					vacuity = append(vacuity, fmt.Sprintf("scenario %v%s: counter %q stayed 0 (the state of interest was never reached)", j["scenario"], lbl, n))
 				}
 			}
 		}
